@@ -10,7 +10,7 @@ import (
 
 func init() {
 	register(
-		&Rule{ID: "RG-ERR", Doc: "every ed25519.GenerateKey error is tested and returned before the keys are used", Run: ruleRGErr, Min: 2},
+		&Rule{ID: "RG-ERR", Doc: "every ed25519.GenerateKey error is tested and returned before the keys are used", Run: ruleRGErr, Min: 1},
 		&Rule{ID: "RG-PLUMB", Doc: "the reader given to GenerateKey is the caller-supplied source (parameter or options.rng), never a constant", Run: ruleRGPlumb, Min: 5},
 	)
 }
@@ -276,6 +276,7 @@ func ruleRGPlumb(p *Prog, r *Reporter) {
 		}
 		r.Check(found, p.Pos(f.Pos()), p.FuncName(f), "store rng", "stores the option's reader into "+m.target+".rng", "does not store the option's reader into "+m.target+".rng")
 	}
+	readerDiscipline(p, r)
 	// 4/5. Build and New hand the caller's reader to newBiscuit through WithRNG
 	for _, spec := range []struct{ recv, name, src string }{{"builderOptions", "Build", "b.rng"}, {"", "New", "rng"}} {
 		f := p.Func("biscuit", spec.recv, spec.name)
@@ -307,6 +308,75 @@ func ruleRGPlumb(p *Prog, r *Reporter) {
 		}
 		r.Check(flows, p.instrPos(with), p.FuncName(f), "WithRNG", "WithRNG("+spec.src+") is in newBiscuit's option list on every path from its construction", "the WithRNG option is built but is not in newBiscuit's option list on every path (dropped or overwritten by a later option): the caller's random source is not used")
 		r.Check(onlyNilGuards(p, with.Block(), spec.src), p.instrPos(with), p.FuncName(f), "WithRNG condition", "built whenever "+spec.src+" is non-nil", "WithRNG("+spec.src+") is built under a condition other than "+spec.src+" != nil")
+	}
+}
+
+// readerDiscipline: the caller's random source is consumed only by ed25519.GenerateKey (or
+// io.ReadFull, which has the same fill-or-fail contract); a bare Read may return fewer bytes
+// than asked with a nil error, so key material drawn that way is not the source's.
+func readerDiscipline(p *Prog, r *Reporter) {
+	for _, fn := range p.funcsIn("biscuit") {
+		var readers []ssa.Value
+		for _, pa := range fn.Params {
+			if isIOReader(pa.Type()) {
+				readers = append(readers, pa)
+			}
+		}
+		for _, b := range fn.Blocks {
+			for _, in := range b.Instrs {
+				if u, ok := in.(*ssa.UnOp); ok && u.Op == token.MUL && isIOReader(u.Type()) {
+					if fa, ok := u.X.(*ssa.FieldAddr); ok && fieldName(fa) == "rng" {
+						readers = append(readers, u)
+					}
+				}
+			}
+		}
+		for _, rd := range readers {
+			bad := ""
+			seen := map[ssa.Value]bool{}
+			var walk func(v ssa.Value)
+			walk = func(v ssa.Value) {
+				if seen[v] || v.Referrers() == nil {
+					return
+				}
+				seen[v] = true
+				for _, ref := range *v.Referrers() {
+					switch x := ref.(type) {
+					case *ssa.MakeInterface:
+						walk(x)
+					case *ssa.ChangeInterface:
+						walk(x)
+					case *ssa.ChangeType:
+						walk(x)
+					case *ssa.Phi:
+						walk(x)
+					case ssa.CallInstruction:
+						cc := x.Common()
+						if cc.IsInvoke() && cc.Value == v {
+							bad = fmt.Sprintf("%s: the random source's %s method is called directly; a short read with a nil error yields key material that is not the source's (only ed25519.GenerateKey / io.ReadFull may consume it)", p.instrPos(x), cc.Method.Name())
+							continue
+						}
+						if isCallTo(cc, "crypto/ed25519.GenerateKey", "io.ReadFull") {
+							continue
+						}
+						if cal := cc.StaticCallee(); cal != nil && p.isRepoFunc(cal) {
+							continue
+						}
+						if _, isB := cc.Value.(*ssa.Builtin); isB {
+							continue
+						}
+						bad = fmt.Sprintf("%s: the random source is handed to %s, which is neither ed25519.GenerateKey nor a repository function", p.instrPos(x), shortD(cc.Value))
+					}
+				}
+			}
+			walk(rd)
+			fnm := p.FuncName(fn)
+			if bad != "" {
+				r.Bad(p.Pos(fn.Pos()), fnm, "reader "+shortD(rd), bad)
+			} else {
+				r.OK(p.Pos(fn.Pos()), fnm, "reader "+shortD(rd), "the random source is only forwarded, stored, compared with nil or consumed by ed25519.GenerateKey")
+			}
+		}
 	}
 }
 
